@@ -68,15 +68,16 @@ C01_FailedNeverMerged ==
     \A i \in DOMAIN txs : (txs[i].ph.val = "F" \/ txs[i].ph.init = "F") => \A t \in (DOMAIN dev) : ~Merged(t, i)
 
 \* once idle, all named targets or none
-C01_AtomicAtQuiescence ==
-    Stable => \A i \in DOMAIN txs :
+C01_AtomicAtQuiescenceAt(st) ==
+    st => \A i \in DOMAIN txs :
         (IsChange(i) /\ Terminal(txs[i])) =>
             \/ \A t \in DOMAIN txs[i].ch : Merged(t, i)
             \/ \A t \in DOMAIN txs[i].ch : ~Merged(t, i)
+C01_AtomicAtQuiescence == C01_AtomicAtQuiescenceAt(Stable)
 
 \* the last change merged on a target is what Get returns for the paths it names
-C01_CommittedIsReadable ==
-    Stable => \A t \in DOMAIN cfgs :
+C01_CommittedIsReadableAt(st) ==
+    st => \A t \in DOMAIN cfgs :
         LET ks == {k \in OkMerges : mergelog[k].t = t} IN
         ks # {} =>
             LET last == CHOOSE k \in ks : \A k2 \in ks : k2 <= k
@@ -86,6 +87,7 @@ C01_CommittedIsReadable ==
                     IF txs[i].ch[t][path] = "DEL"
                     THEN \A p2 \in DOMAIN GetView(t) : ~VO!Covers(path, p2) \/ p2 \in DOMAIN txs[i].ch[t]
                     ELSE path \in DOMAIN GetView(t) /\ GetView(t)[path] = txs[i].ch[t][path]
+C01_CommittedIsReadable == C01_CommittedIsReadableAt(Stable)
 
 \* a rejected share fails the request as a whole
 C01_ReportedFailed ==
@@ -123,8 +125,8 @@ C02_ApplyOnlyMerged ==
 
 ApplyFailed(t, i) == PID(t, i) \in DOMAIN props /\ props[PID(t, i)].ph.app = "F"
 
-C04_Converged ==
-    (Stable /\ AllTerminal) =>
+C04_ConvergedAt(st) ==
+    (st /\ AllTerminal) =>
         \A t \in DOMAIN cfgs : (Synchronized(t) /\ DeviceWilling(t)) =>
             LET stored == GetView(t)
                 good == {path \in DOMAIN stored : ~ApplyFailed(t, cfgs[t].values[path].i)}
@@ -132,6 +134,7 @@ C04_Converged ==
                 anyFailed == \E id \in DOMAIN props : props[id].t = t /\ props[id].ph.app = "F"
             IN /\ \A path \in good : path \in DOMAIN dev[t].vals /\ dev[t].vals[path] = stored[path]
                /\ anyFailed \/ \A path \in DOMAIN dev[t].vals : path \in DOMAIN stored
+C04_Converged == C04_ConvergedAt(Stable)
 
 -----------------------------------------------------------------------------
 (* C05 - nothing becomes configuration without passing the model *)
@@ -191,9 +194,10 @@ C06_RollbackRefused ==
 C07_MergedOnce ==
     \A k1, k2 \in OkMerges : (mergelog[k1].t = mergelog[k2].t /\ mergelog[k1].i = mergelog[k2].i) => k1 = k2
 
-C07_NoneSkipped ==
-    Stable => \A i \in DOMAIN txs :
+C07_NoneSkippedAt(st) ==
+    st => \A i \in DOMAIN txs :
         (txs[i].ph.com = "D" /\ txs[i].state # "FAILED") => \A t \in TargetsOf(i) : Merged(t, i)
+C07_NoneSkipped == C07_NoneSkippedAt(Stable)
 
 \* the crash-free outcome of a log is a function of its content (sequential reference semantics)
 RECURSIVE RefRun(_)
@@ -222,13 +226,15 @@ RefRun(n) ==
 RefCommits(i) == RefRun(Len(txs)).out[i] = "COMMITTED"
 
 \* every accepted transaction reaches the commit / fail decision it has without a crash
-C07_SameDecision ==
-    (Stable /\ AllTerminal) => \A i \in DOMAIN txs :
+C07_SameDecisionAt(st) ==
+    (st /\ AllTerminal) => \A i \in DOMAIN txs :
         (RefCommits(i) <=> (txs[i].ph.com = "D"))
+C07_SameDecision == C07_SameDecisionAt(Stable)
 
 \* and the stored configurations end as the sequential reference says
-C07_SameConfiguration ==
-    (Stable /\ AllTerminal) => \A t \in (DOMAIN dev) : GetView(t) = RefRun(Len(txs)).cfg[t]
+C07_SameConfigurationAt(st) ==
+    (st /\ AllTerminal) => \A t \in (DOMAIN dev) : GetView(t) = RefRun(Len(txs)).cfg[t]
+C07_SameConfiguration == C07_SameConfigurationAt(Stable)
 
 -----------------------------------------------------------------------------
 (* C08 - every Set / rollback is answered, truthfully *)
@@ -266,7 +272,13 @@ C09_QuiescentIsFixpoint == Quiescent => Stable
 \* at a fixed point with every named target reachable, every transaction is final
 NamedTargetsReady == \A i \in DOMAIN txs : ~Terminal(txs[i]) =>
                         \A t \in TargetsOf(i) : (t \in DOMAIN cfgs => Synchronized(t) /\ DeviceWilling(t))
-C09_AllTerminal == (Stable /\ NamedTargetsReady) => AllTerminal
+C09_AllTerminalAt(st) == (st /\ NamedTargetsReady) => AllTerminal
+C09_AllTerminal == C09_AllTerminalAt(Stable)
+\* C07: later work is not blocked by a crash - the same formula, evaluated on behaviours with crashes
+C07_NotBlockedAt(st) == C09_AllTerminalAt(st)
+C07_NotBlocked == C07_NotBlockedAt(Stable)
+C07_DeviceConvergedAt(st) == C04_ConvergedAt(st)
+C07_DeviceConverged == C07_DeviceConvergedAt(Stable)
 
 -----------------------------------------------------------------------------
 (* C10 - only the current master writes, in its term, after re-synchronising *)
@@ -314,7 +326,8 @@ C11_TxReportsClass ==
         \E id \in txs[i].props : id \in DOMAIN props /\ props[id].ph.app = "F" /\ props[id].fail = txs[i].fail
 
 \* a refused change does fail (it is not silently retried or marked applied)
-C11_RefusalFails ==
-    Stable => \A k \in Applies : (IsRefusal(devlog[k].code) /\ devlog[k].id \in DOMAIN props) =>
+C11_RefusalFailsAt(st) ==
+    st => \A k \in Applies : (IsRefusal(devlog[k].code) /\ devlog[k].id \in DOMAIN props) =>
         props[devlog[k].id].ph.app = "F"
+C11_RefusalFails == C11_RefusalFailsAt(Stable)
 =============================================================================
